@@ -5,7 +5,8 @@
 (* calls Visit - nil prunes - and pushes the node's fields in reverse)     *)
 (* against the recursive definition of "pre-order of the nodes reachable   *)
 (* through node-typed fields in declaration order, minus pruned subtrees,  *)
-(* with the Field/Index path to each".  Checked for ALL trees with up to   *)
+(* with the chain of visitor callbacks (Visit -> Field -> VisitMany ->     *)
+(* Index) that leads to each".  Checked for ALL trees with up to           *)
 (* MaxNodes nodes over all field layouts and all prune sets.               *)
 (***************************************************************************)
 EXTENDS Integers, Sequences, FiniteSets, TLC
@@ -43,21 +44,21 @@ Step ==
           /\ IF top.isList
              THEN \* VisitMany: push the elements in reverse with their index
                   /\ out' = out
-                  /\ stack' = rest \o Rev([i \in 1..Len(top.nodes) |-> [node |-> top.nodes[i], nodes |-> <<>>, path |-> Append(top.path, i - 1), isList |-> FALSE]])
+                  /\ stack' = rest \o Rev([i \in 1..Len(top.nodes) |-> [node |-> top.nodes[i], nodes |-> <<>>, path |-> top.path \o <<"<VisitMany>", i - 1>>, isList |-> FALSE]])
              ELSE /\ out' = Append(out, <<top.node, top.path>>)
                   /\ IF top.node \in prune THEN stack' = rest
                      ELSE LET fs == Fields(parent, layout, N, top.node) IN
                           stack' = rest \o Rev([i \in 1..Len(fs) |->
-                                     IF fs[i].many THEN [node |-> 0, nodes |-> fs[i].kids, path |-> Append(top.path, fs[i].name), isList |-> TRUE]
-                                     ELSE [node |-> fs[i].kids[1], nodes |-> <<>>, path |-> Append(top.path, fs[i].name), isList |-> FALSE]])
+                                     IF fs[i].many THEN [node |-> 0, nodes |-> fs[i].kids, path |-> top.path \o <<"<Visit>", fs[i].name>>, isList |-> TRUE]
+                                     ELSE [node |-> fs[i].kids[1], nodes |-> <<>>, path |-> top.path \o <<"<Visit>", fs[i].name>>, isList |-> FALSE]])
 Spec == Init /\ [][Step]_vars
 
 RECURSIVE Pre(_, _), PreFields(_, _, _), PreList(_, _, _)
 Pre(x, path) == IF x \in prune THEN << <<x, path>> >> ELSE << <<x, path>> >> \o PreFields(Fields(parent, layout, N, x), 1, path)
 PreFields(fs, k, path) == IF k > Len(fs) THEN <<>>
-                          ELSE (IF fs[k].many THEN PreList(fs[k].kids, 1, Append(path, fs[k].name)) ELSE Pre(fs[k].kids[1], Append(path, fs[k].name)))
+                          ELSE (IF fs[k].many THEN PreList(fs[k].kids, 1, path \o <<"<Visit>", fs[k].name>>) ELSE Pre(fs[k].kids[1], path \o <<"<Visit>", fs[k].name>>))
                                \o PreFields(fs, k + 1, path)
-PreList(ks, i, path) == IF i > Len(ks) THEN <<>> ELSE Pre(ks[i], Append(path, i - 1)) \o PreList(ks, i + 1, path)
+PreList(ks, i, path) == IF i > Len(ks) THEN <<>> ELSE Pre(ks[i], path \o <<"<VisitMany>", i - 1>>) \o PreList(ks, i + 1, path)
 
 AlgorithmIsDefinition == done => out = Pre(1, <<>>)
 OutIsPrefix == Len(out) <= Len(Pre(1, <<>>)) /\ out = SubSeq(Pre(1, <<>>), 1, Len(out))      \* so an early stop yields a prefix (Preorder)
